@@ -92,3 +92,46 @@ reg("C15", "E1 product sweep",
     "environmental spellings with <=2 (quick) / <=3 (thorough) departures from 'absent', and in the "
     "thorough tier the complete 30,000,000-point environmental spelling space on one base vector.",
     TRUST, "DESIGN.md section 3, C15")
+
+reg("C04", "E2 rewrite BFS",
+    "explicit-state BFS over the edit graph of strings around valid vectors (dedup on the string) "
+    "plus all short strings; each string offered to all three real constructors and compared with "
+    "an independent recogniser of the grammar and error taxonomy",
+    "Character-level edit distance 1 over a 53-character alphabet and field-level distance 1 over "
+    "a ~330-field universe around 24 seeds, field-level distance 2 around minimal seeds, all "
+    "strings of length <=5 (quick) / <=6 (thorough) over a 10-character alphabet, and in the "
+    "thorough tier character-level distance 2 around the minimal v2 vector (~7M strings). The "
+    "quantifier is unbounded; the verdict is for the stated edit-distance bound.",
+    "Trusted: the grammar tables typed in from the specifications (vf/ref/tables.py).",
+    "DESIGN.md section 3, C04")
+
+reg("C05", "E2 rewrite BFS",
+    "explicit-state BFS over the re-spelling graph (field transpositions/moves, explicit ND/X "
+    "insertions and deletions) around value-covering seeds + complete permutation groups and "
+    "power sets; differential oracle against the seed's observation tuple",
+    "Permutation distance 1 (quick) / 2 (thorough) from 160-190 seeds; all 720 orders of the v2 "
+    "base fields, all 40,320 orders of the v3 base fields; all 2^k explicit-ND subsets for v2/v3, "
+    "v4 all 2^k in the thorough tier. No expected values: every node must reproduce its seed's "
+    "scores, ratings, cleaned vector, RH vector, sub-vectors, equality and hash.",
+    "Trusted: the model's parse (to know which seed a node belongs to).",
+    "DESIGN.md section 3, C05")
+
+reg("C07", "E1 universe + all ordered pairs",
+    "explicit enumeration of a universe of accepted vectors and of ALL ordered pairs of it on the "
+    "real objects; oracle = the model's defined-metric map (model key)",
+    "~2,300 (quick) / ~6,000 (thorough) vectors over all four families: unary canonical-form "
+    "checks on each, == / != / hash / scores consistency on every ordered pair (5M-36M pairs, "
+    "cross-version pairs included), transitivity on all triples of a 60-element sub-universe. The "
+    "fixed metric order is checked as a consistent precedence relation over all outputs without "
+    "presupposing which order.",
+    "Trusted: the model's parse. Bounded by the universe.", "DESIGN.md section 3, C07")
+
+reg("C08", "E1 subset sweep + builder runs",
+    "explicit enumeration of every subset of optional metrics defined (and interactive-builder "
+    "runs) on the real code; oracle = the library's own parser + the vectorString regex of the "
+    "pinned FIRST schema",
+    "v2: all 2^8 subsets x 3 value rotations x 3 input orders; v3: all 2^14 x 2 minors; v4: all "
+    "2^21 subsets (thorough) / all subsets of size <=3 and their complements (quick); plus 64 "
+    "builder runs. Every emitted string is re-parsed and regex-matched.",
+    "Trusted: the pinned copies of FIRST's JSON schemas (data/schemas), Python's re.",
+    "DESIGN.md section 3, C08")
